@@ -76,16 +76,26 @@ static void build_cfg_list(void)
 		}
 	}
 	if (g_pf.codecs & 8) {
-		static const uint32_t seeds[] = { 1, 2147483646u, 16807 };
+		static const uint32_t seeds[] = { 1, 2147483646u, 16807, 2, 3, 5, 7, 11 };
 		uint32_t kmax = exh > 3 ? exh - 3 : 1;
 		for (uint32_t k = 1; k <= kmax; k++) for (uint32_t rr = 3; k + rr <= exh; rr++) {
-			/* quick: thin the grid deterministically; thorough: everything */
+			uint32_t n = k + rr;
 			for (uint32_t N1 = 3; N1 <= rr && N1 <= 7; N1++) {
-				if (!T && ((k * 31 + rr * 7 + N1) % 4) && !(N1 == 3 && rr <= 4)) continue;
-				uint32_t sd = seeds[(k + rr + N1) % 3];
-				add_cfg(3, 0, k, rr, N1, sd, 0);
+				/* the code is a different matrix for every (k,r,N1,seed): small n is cheap, so take several seeds there;
+				 * quick thins the grid only for the two largest exhaustive sizes */
+				if (!T && n + 1 >= exh && ((k * 31 + rr * 7 + N1) % 4) && !(N1 == 3 && rr <= 4)) continue;
+				unsigned nseeds = n <= 8 ? 4 : n <= 10 ? 2 : 1; if (T) nseeds *= 2;
+				for (unsigned si = 0; si < nseeds; si++) add_cfg(3, 0, k, rr, N1, seeds[(k + rr + N1 + si) % 8], 0);
 				if (T) add_cfg(3, 0, k, rr, N1, 1 + (uint32_t)(rng_u64(&r) % 2147483646u), 0);
 			}
+		}
+		/* low code rates with even N1: the self-injected "null last repair symbol" and the extra-entry logic live here */
+		static const uint32_t lrk[] = { 2, 3, 5, 8, 10, 12 };
+		for (unsigned i = 0; i < sizeof lrk / sizeof lrk[0]; i++) for (unsigned j = 0; j < 4; j++) {
+			uint32_t k = lrk[i], rr = j == 0 ? 2 * k : j == 1 ? 2 * k + 1 : j == 2 ? 3 * k : 4 * k;
+			if (rr < 4) rr = 4;
+			for (uint32_t N1 = 4; N1 <= 6 && N1 <= rr; N1 += 2)
+				for (unsigned si = 0; si < (T ? 6u : 3u); si++) add_cfg(3, 0, k, rr, N1, seeds[(i + j + si) % 8], k + rr > exh);
 		}
 		static const uint32_t lk[] = { 16, 20, 33, 64, 100, 250, 1000 };
 		for (unsigned i = 0; i < sizeof lk / sizeof lk[0]; i++) {
